@@ -1,5 +1,6 @@
 import PhysisModel.Proofs.Fs
 import PhysisModel.Proofs.PatchBytes
+import PhysisModel.Proofs.PatchStream
 import PhysisModel.Spec.ZiPatchCreate
 /-! C04: applying the patch that `create` writes. -/
 set_option linter.unusedSimpArgs false
@@ -190,7 +191,8 @@ theorem applyLoop_add (inflate : Bytes → Nat → Option Bytes) (fuel : Nat) (p
     rw [← blockGap_length d]; simp
   rw [applyLoop, List.append_assoc, List.append_assoc,
     rdChunkBody_fileOpChunk 0x41 .addFile (by decide) d.length (joinSlash p) _ (joinSlash_ascii p hp) hl]
-  simp only [hlen, ↓reduceIte, pathComps_join p hp, hmk, hsz, hrb, applyChunk]
+  simp only [hlen, ↓reduceIte, pathComps_join p hp, hmk, hsz,
+    addFileBlocks_of_readBlocks inflate p 0 d.length _ _ d (blockGap d ++ rest) t1 hrb]
   unfold addW
   cases ho : openCreate t1 p with
   | none => simp [hdrop]
